@@ -842,3 +842,19 @@ def gen_overbudget_election(rng: random.Random, m=(2, 6), n=(2, 6)):
     projects = list(zip(names, costs))
     r.shuffle(projects)
     return Case(projects, budget, "app", ballots, seed=sub)
+
+
+def collection_variants(items, alloc_cls=None, one_shot=True):
+    """The same collection as the argument types a caller may use for it (round 7 of the seeded changes: a check or a fast path
+    placed before the copy of an argument consumes a one-shot iterable).  Returns [(label, factory)]; every factory builds a
+    FRESH object, so a generator is never handed over twice.  `one_shot=False` leaves the iterators out (for parameters the
+    unchanged library itself traverses twice)."""
+    items = list(items)
+    out = [("tuple", lambda: tuple(items)), ("set", lambda: set(items)), ("frozenset", lambda: frozenset(items)),
+           ("dict_keys", lambda: dict.fromkeys(items).keys()), ("reversed_list", lambda: list(reversed(items)))]
+    if one_shot:
+        out += [("generator", lambda: (p for p in items)), ("iter", lambda: iter(items)), ("map", lambda: map(lambda p: p, items)),
+                ("filter", lambda: filter(lambda p: True, items))]
+    if alloc_cls is not None:
+        out.append(("BudgetAllocation", lambda: alloc_cls(items)))
+    return out
